@@ -240,6 +240,7 @@ class Program:
         self._load(include_tests)
         for m in list(self.modules.values()):
             self._resolve_module(m)
+        self._fix_deferred()
         self._finish_classes()
 
     # ---------------------------------------------------------------- loading
@@ -484,6 +485,22 @@ class Program:
                 return External(f'{basesym.qualname}.{e.attr}')
             return None
         return None
+
+    def _fix_deferred(self) -> None:
+        """names imported from a module that was still being scanned (import cycle) are looked up again"""
+        for _ in range(3):
+            changed = False
+            for m in self.modules.values():
+                for k, v in list(m.symbols.items()):
+                    if isinstance(v, External) and v.qualname.endswith('?'):
+                        modname, _, name = v.qualname[:-1].rpartition('.')
+                        tm = self.modules.get(modname)
+                        if tm is not None and name in tm.symbols and not (
+                                isinstance(tm.symbols[name], External) and tm.symbols[name].qualname.endswith('?')):
+                            m.symbols[k] = tm.symbols[name]
+                            changed = True
+            if not changed:
+                break
 
     # ------------------------------------------------------------------- MRO
     def _finish_classes(self) -> None:
